@@ -186,6 +186,17 @@ def default_result(stub, k, fname, args):
         return 17
     if fname == "proc_num_threads":
         return 3
+    if fname == "net_connections" and plat in ("aix7", "sunos5") and \
+            args and isinstance(args[0], int):
+        # the native layer filters by pid; -1 means every process. One
+        # listening TCP socket per process, descriptor number = 100 + pid
+        want = args[0]
+        rows = []
+        for p_ in sorted(k.procs):
+            if want in (-1, p_):
+                rows.append((100 + p_, 2, 1, ("127.0.0.1", 8000 + p_ % 1000),
+                             (), stub.const("TCPS_LISTEN"), p_))
+        return rows
     if fname in ("proc_memory_maps", "proc_net_connections",
                  "net_connections", "users", "disk_partitions",
                  "winservice_enumerate"):
@@ -736,6 +747,14 @@ class Foreign(EngineBase):
                         V("C20.layout", ftags + ["fallback"], "%s fallback "
                           "-> %r, proc_info slots say %r" % (method, got,
                                                              exp))
+        if platform in ("aix7", "sunos5") and method == "net_connections" \
+                and not faults and out[0] == "value":
+            # filled from the records of THIS pid only (descriptor 100+pid)
+            fds_ = sorted(c.fd for c in out[1])
+            if fds_ != [100 + pid]:
+                V("C20.layout", ["net_connections", "pid=%d" % pid],
+                  "net_connections of pid %d -> descriptors %r, the native "
+                  "layer holds [%d] for it" % (pid, fds_, 100 + pid))
         if platform == "netbsd10" and method == "cmdline" and \
                 len(fired) == 1 and fired[0]["errno"] == errno.EINVAL and \
                 fired[0].get("then"):
